@@ -91,7 +91,15 @@ def prepare(x, aromatize=True):
         mol = Chem.MolFromSmiles(x)
         if mol is None:
             return None
-        sanitize_like_repo(mol)
+        try:
+            sanitize_like_repo(mol)
+        except Exception as e:
+            # RDKit accepts the text as a whole but refuses one of the steps when they are requested one by one (seen:
+            # KekulizeException on exotic aromatic radicals): there is no "molecule RDKit reports" for this text in the
+            # order GetDescriptors asks, so it is outside the domain (A-graph), like a text RDKit cannot parse
+            if type(e).__module__.startswith('rdkit'):
+                return None
+            raise
     else:
         mol = Chem.Mol(x)
     mol = Chem.AddHs(mol)
